@@ -213,21 +213,23 @@ fn cases(thorough: bool) -> Vec<Case> {
         let src = format!("fn w({}) {{ return p0; }}\nfn rec(n) {{ if n > 0 {{ return w({}) + rec(n - 1); }} return 0; }}\ntry {{ print(rec({})); }} catch e {{ print(type(e)); }}\nprint(\"end\");\n", params, args, depth);
         out.push(Case { family: "resource_depth_x_width", cell: format!("depth {} wide call", depth), source: src, derived_receiver: false, raw: true });
     }
-    // nesting ladders: print, ==, hashing, iteration, dropping
-    let depths: Vec<usize> = if thorough { vec![10, 100, 1000, 10000, 100000] } else { vec![10, 100, 1000, 10000] };
-    for n in depths {
-        for (what, build, use_) in [
-            ("nested_vec_print", "var v = []; for i in 0..N { v = [v]; }", "var t = String.from(v); print(t.len());"),
-            ("nested_vec_equal", "var v = []; var w = []; for i in 0..N { v = [v]; w = [w]; }", "print(v == w);"),
-            ("nested_tuple_hash", "var v = (1,); for i in 0..N { v = (v,); }", "var m = {v: 1}; print(m.len());"),
-            ("nested_map_print", "var v = {}; for i in 0..N { v = {1: v}; }", "var t = String.from(v); print(t.len());"),
-            ("nested_instances", "#[constructor(new)] class Node {} var v = Node.new(); for i in 0..N { var nn = Node.new(); nn.next = v; v = nn; }", "print(type(v));"),
-            ("nested_closures", "var v = || 0; for i in 0..N { var prev = v; v = || prev; }", "print(type(v));"),
-            ("nested_drop", "var v = []; for i in 0..N { v = [v]; }", "v = nil; var g = [[1], [2]]; print(g);"),
-        ] {
-            let src = format!("{}\n{}\nprint(\"end\");\n", build.replace("N", &n.to_string()), use_);
-            out.push(Case { family: "resource_nesting", cell: format!("{} depth {}", what, n), source: src, derived_receiver: false, raw: true });
+    // nesting ladders: print, ==, hashing, iteration, dropping.  On the checked runner (a collection at
+    // every allocation makes building quadratic) up to 10^4; deeper ones run in `deep_nesting_cases`.
+    for n in [10usize, 100, 1000, 10000] {
+        for (what, build, use_) in nesting_shapes() {
+            // a fiber owns a value stack of 256 KiB: chains of them are kept short
+            if what == "nested_fiber_chain" && n > 1000 {
+                continue;
+            }
+            let src = format!("{}\n{}\nprint(\"end\");\n", build.replace("@N@", &n.to_string()), use_);
+            out.push(Case { family: "resource_nesting", cell: format!("{} depth {}", what, n), source: src, derived_receiver: false, raw: false });
         }
+    }
+    // error reports: every uncaught-error program of C17's generator (call chains over eight link kinds,
+    // twelve failing statements, earlier handled exceptions in every active frame, errors through finally
+    // blocks) - building the report must not panic
+    for (i, src) in crate::c17::sources_for_c02().into_iter().enumerate() {
+        out.push(Case { family: "error_reports", cell: format!("C17 program {}", i), source: src, derived_receiver: false, raw: true });
     }
     // self-containing data, borrow conflicts, mutation during iteration
     for (cell, body) in [
@@ -261,6 +263,38 @@ fn cases(thorough: bool) -> Vec<Case> {
     out
 }
 
+fn nesting_shapes() -> Vec<(&'static str, &'static str, &'static str)> {
+    vec![
+        ("nested_vec_print", "var v = []; for i in 0..@N@ { v = [v]; }", "var t = String.from(v); print(t.len());"),
+        ("nested_vec_equal", "var v = []; var w = []; for i in 0..@N@ { v = [v]; w = [w]; }", "print(v == w);"),
+        ("nested_tuple_hash", "var v = (1,); for i in 0..@N@ { v = (v,); }", "var m = {v: 1}; print(m.len());"),
+        ("nested_map_print", "var v = {}; for i in 0..@N@ { v = {1: v}; }", "var t = String.from(v); print(t.len());"),
+        ("nested_instances", "#[constructor(new)] class Node {} var v = Node.new(); for i in 0..@N@ { var nn = Node.new(); nn.next = v; v = nn; }", "print(type(v));"),
+        ("nested_closures", "var v = || 0; for i in 0..@N@ { var prev = v; v = || prev; }", "print(type(v));"),
+        ("nested_drop", "var v = []; for i in 0..@N@ { v = [v]; }", "v = nil; var g = [[1], [2]]; print(g);"),
+        ("nested_fiber_chain", "var v = Fiber.new(|| 0); for i in 0..@N@ { var prev = v; v = Fiber.new(|| prev); }", "print(type(v));"),
+        ("nested_iterators", "var v = [1].iter(); for i in 0..@N@ { v = v.map(|e| e); }", "print(type(v));"),
+    ]
+}
+
+/// Data nested 10^5 levels and deeper, on the optimised runner (collections paced by the threshold) and
+/// on a thread with the 8 MiB stack of an ordinary main thread: whatever recurses over the nesting
+/// depth - tracing, printing, comparing, hashing, dropping - meets the limit a normal embedding has.
+fn deep_nesting_cases(thorough: bool) -> Vec<Case> {
+    let mut out = Vec::new();
+    let depths: Vec<usize> = if thorough { vec![30_000, 100_000, 200_000, 1_000_000] } else { vec![100_000, 200_000] };
+    for n in depths {
+        for (what, build, use_) in nesting_shapes() {
+            if what == "nested_fiber_chain" {
+                continue;
+            }
+            let src = format!("{}\n{}\nprint(\"end\");\n", build.replace("@N@", &n.to_string()), use_);
+            out.push(Case { family: "resource_deep_nesting_on_an_ordinary_stack", cell: format!("{} depth {}", what, n), source: src, derived_receiver: false, raw: false });
+        }
+    }
+    out
+}
+
 #[derive(Default)]
 struct Acc {
     evaluations: usize,
@@ -280,6 +314,11 @@ fn attribute(c: &Case, problem: &str, active: &[Finding]) -> Option<String> {
     if (c.cell.starts_with("two distinct self-containing") || c.cell == "tuple cycle as map key lookup") && (problem.contains("CRASH") || problem.contains("overflow")) && has("KF-C02-02") {
         return Some("KF-C02-02".into());
     }
+    // printing, comparing and hashing recurse over the nesting depth of the data
+    let recursing = ["nested_vec_print", "nested_vec_equal", "nested_tuple_hash", "nested_map_print"].iter().any(|s| c.cell.starts_with(s));
+    if c.family == "resource_deep_nesting_on_an_ordinary_stack" && recursing && problem.contains("CRASH") && has("KF-C02-03") {
+        return Some("KF-C02-03".into());
+    }
     None
 }
 
@@ -292,14 +331,14 @@ pub fn run(ctx: &Ctx) -> Report {
     modules.insert("selfish".to_string(), "import \"selfish\";\n".to_string());
     let modules_ref = &modules;
     let active_ref = &active;
-    let accs = par_map(&ctx.runner_checked, ctx.workers, all.into_iter(), |runner, i, c| {
-        runner.timeout = std::time::Duration::from_secs(40);
+    let judge = |runner: &mut crate::pool::Runner, i: usize, c: Case, stack_kb: Option<usize>| -> Acc {
+        runner.timeout = std::time::Duration::from_secs(if stack_kb.is_some() { 120 } else { 40 });
         let mut acc = Acc::default();
         acc.evaluations += 1;
         acc.cells.insert(c.cell.clone());
         *acc.by_family.entry(c.family.to_string()).or_insert(0) += 1;
         let run = |runner: &mut crate::pool::Runner| -> (Obs, Option<String>, String) {
-            let mut req = Request { op: "run".into(), snippets: vec![c.source.clone()], modules: modules_ref.clone(), fuel: Some(30_000_000), ..Default::default() };
+            let mut req = Request { op: "run".into(), snippets: vec![c.source.clone()], modules: modules_ref.clone(), fuel: if stack_kb.is_some() { None } else { Some(30_000_000) }, stack_kb, ..Default::default() };
             let obs = runner.call(&mut req);
             let (problem, class) = match &obs {
                 Obs::Resp(r) => match r.results.get(0) {
@@ -349,18 +388,44 @@ pub fn run(ctx: &Ctx) -> Report {
         if let Some(p) = problem {
             // confirm
             let (_, p2, _) = run(runner);
-            if p2.as_deref() != Some(p.as_str()) {
+            // (a panic message may quote an address-dependent number: compare with digit runs masked)
+            let mask = |s: &str| -> String {
+                let mut out = String::new();
+                let mut in_digits = false;
+                for ch in s.chars() {
+                    if ch.is_ascii_digit() {
+                        if !in_digits {
+                            out.push('#');
+                        }
+                        in_digits = true;
+                    } else {
+                        in_digits = false;
+                        out.push(ch);
+                    }
+                }
+                out
+            };
+            // two panics are the same verdict whatever their messages (a stale pointer makes the message
+            // depend on where things happen to lie)
+            let both_panic = p.starts_with("interpreter panicked") && p2.as_deref().map(|x| x.starts_with("interpreter panicked")).unwrap_or(false);
+            if !both_panic && p2.as_deref().map(mask) != Some(mask(&p)) {
                 crate::pool::machinery_failure(&format!("C02: case `{}` behaved differently when re-run: {:?} vs {:?}", c.cell, p, p2));
             }
             match attribute(&c, &p, active_ref) {
                 Some(f) => {
                     *acc.attributed.entry(f).or_insert(0) += 1;
                 }
-                None => acc.violations.push((format!("[{}: {}] {}", c.family, c.cell, p), json!({"family": c.family, "cell": c.cell, "request": {"op": "run", "snippets": [c.source], "modules": modules_ref}, "problem": p}))),
+                None => acc.violations.push((format!("[{}: {}] {}", c.family, c.cell, p), json!({"family": c.family, "cell": c.cell, "request": {"op": "run", "snippets": [c.source], "modules": modules_ref, "stack_kb": stack_kb}, "runner": if stack_kb.is_some() { "release" } else { "checked" }, "problem": p}))),
             }
         }
         acc
-    });
+    };
+    let judge_ref = &judge;
+    let mut accs = par_map(&ctx.runner_checked, ctx.workers, all.into_iter(), |runner, i, c| judge_ref(runner, i, c, None));
+    // deep data on the optimised runner, on a thread with an ordinary 8 MiB stack
+    let deep = deep_nesting_cases(ctx.thorough());
+    let n = n + deep.len();
+    accs.extend(par_map(&ctx.runner_opt, ctx.workers.min(8), deep.into_iter(), |runner, i, c| judge_ref(runner, i + 1, c, Some(8192))));
     let mut acc = Acc::default();
     for a in accs {
         acc.evaluations += a.evaluations;
@@ -385,7 +450,7 @@ pub fn run(ctx: &Ctx) -> Report {
     report.cov("traces_validated_against_impl", json!(acc.evaluations));
     report.cov("distinct_nontrivial", json!(acc.cells.len()));
     report.cov("exhaustive", json!(true));
-    report.cov("rule", json!("native sweep: every built-in method of every value class (and the class-side methods of String, Fiber, Error, StopIter) on a receiver of the right class and on an instance of a class derived from it, with every argument tuple of the native's arity over a 43-value adversarial pool (quick tier: a third of the two-argument tuples on derived receivers), plus one argument fewer and one more; operator sweep: 20 unary constructs x every pool value, 6 binary constructs x every ordered pair, slices over 8x8 bounds; resource grid: recursion depth {1..70} x frame width {1..250} and wide argument lists, nesting ladders to depth 10^4/10^5 for seven data shapes, 23 self-reference / mutation-during-iteration / fiber misuse programs. oracle: the run ends Ok or with a reported error; never a panic, crash or hang; a failing built-in call wrapped in try/catch reaches the handler with an instance of an error class. distinct = distinct (construct, argument-kind tuple) cells."));
+    report.cov("rule", json!("native sweep: every built-in method of every value class (and the class-side methods of String, Fiber, Error, StopIter) on a receiver of the right class and on an instance of a class derived from it, with every argument tuple of the native's arity over a 43-value adversarial pool (quick tier: a third of the two-argument tuples on derived receivers), plus one argument fewer and one more; operator sweep: 20 unary constructs x every pool value, 6 binary constructs x every ordered pair, slices over 8x8 bounds; resource grid: recursion depth {1..70} x frame width {1..250} and wide argument lists, nesting ladders to depth 10^4 for nine data shapes on the checked runner and to 2x10^5 / 10^6 on the optimised runner on a thread with an ordinary 8 MiB stack (tracing, printing, comparing, hashing and dropping data that deep), every uncaught-error program of C17's generator (the error report must not panic), 23 self-reference / mutation-during-iteration / fiber misuse programs. oracle: the run ends Ok or with a reported error; never a panic, crash or hang; a failing built-in call wrapped in try/catch reaches the handler with an instance of an error class. distinct = distinct (construct, argument-kind tuple) cells."));
     report.cov("bounds", json!({"pool_values": pool().len(), "cases": n}));
     report.cov("by_family", json!(acc.by_family));
     report.cov("outcome_histogram", json!(acc.outcomes));
